@@ -296,8 +296,8 @@ def nontrivial_result(ev):
         return any(isinstance(x, dict) and len(set(x.get('fn', []))) > 1 for x in r)
     if ev.get('e') in ('Iter',):
         return len(ev.get('seq', [])) > 0
-    if ev.get('e') in ('Card', 'Rng', 'Elem', 'ICard'):
-        return ev.get('ok') == 1
+    if ev.get('e') in ('Card', 'Rng', 'Elem', 'ICard', 'CInt', 'CReal', 'CBool', 'CConst', 'MReq', 'MRec'):
+        return ev.get('ok') == 1 or 'err' in ev
     if ev.get('e') == 'Snap':
         return len(ev.get('nodes', [])) > 1
     if ev.get('ok') == 0:
